@@ -723,6 +723,13 @@ func ruleNameResolution(c *Ctx, r *Repo, rule string) {
 		ok := false
 		if rs != nil {
 			d := newDT(info)
+			// AllocateName is SuggestName followed by AddName: followed, so that either spelling is seen
+			d.callInline = map[*types.Func]*ast.FuncDecl{}
+			if an := FuncDecl(tp, "MethodScope.AllocateName"); an != nil {
+				if fn, isFn := info.Defs[an.Name].(*types.Func); isFn {
+					d.callInline[fn] = an
+				}
+			}
 			start := seedEnv(d, fd)
 			if v, isId := rs.Value.(*ast.Ident); isId {
 				start.env[info.Defs[v]] = "V"
